@@ -117,7 +117,30 @@ def make_targets(targets):
     return rc, out
 
 
-def run_translator(prop, scratch):
+def gen_cone(targets):
+    """Names of the generated files (Gen_*.v) in the import cone of the given .vo targets: a generated file a property's
+    theorems and correspondence do not depend on cannot break that property's check."""
+    files = {}
+    for f in glob.glob(os.path.join(COQ, "*", "*.v")):
+        files[os.path.basename(f)[:-2]] = f
+    seen, todo, gens = set(), [os.path.basename(t)[:-3] for t in targets], set()
+    while todo:
+        m = todo.pop()
+        if m in seen or m not in files:
+            continue
+        seen.add(m)
+        if m.startswith("Gen_"):
+            gens.add(m + ".v")
+            continue
+        txt = re.sub(r"\(\*.*?\*\)", " ", open(files[m], errors="replace").read(), flags=re.S)
+        for req in re.findall(r"\bRequire\b[^.]*\.", txt):
+            for tok in re.findall(r"[A-Za-z_][A-Za-z0-9_']*", req):
+                if tok in files and tok not in seen:
+                    todo.append(tok)
+    return gens
+
+
+def run_translator(prop, scratch, needed=None):
     """Regenerate coq/gen/Gen_*.v from /repo's source with the stand-alone translator
     harness/verifx (go/ast only, does not link against /repo): `verifx <repo> <outdir>` writes one
     Gen_<Name>.v per table group. Files are replaced only when their content changed."""
@@ -131,7 +154,8 @@ def run_translator(prop, scratch):
     if rc != 0:
         return False, "translator build failed:\n" + out
     rc, out = run([tool, REPO, outd], cwd=scratch)
-    if rc != 0:
+    failed_gens = set(re.findall(r"^verifx: (Gen_\w+\.v):", out, re.M))
+    if rc != 0 and (needed is None or not failed_gens or failed_gens & set(needed)):
         return False, "translator failed:\n" + out
     with Lock(os.path.join(COQ, ".lock")):
         for f in sorted(glob.glob(os.path.join(outd, "Gen_*.v"))):
@@ -283,14 +307,15 @@ def check(pid, prop, tier, seed, n, scratch, t0, only_index):
     broken = []          # broken obligations (names), not yet violations
     notes = []
 
-    # 1. translator
-    if prop.get("generated"):
-        ok, msg = run_translator(prop, scratch)
+    # 1. translator (for every generated file in the import cone of this property's theorems and correspondence)
+    extra_targets = list(prop.get("extra_targets", [])) + ["corr/%s.vo" % x["corr"] for x in prop.get("extra_runs", [])]
+    needed = gen_cone(["props/%s.vo" % pid, "corr/%s.vo" % prop["corr"]] + extra_targets)
+    if prop.get("generated") or needed:
+        ok, msg = run_translator(prop, scratch, needed or None)
         if not ok:
             broken.append("translator: " + msg[-1500:])
 
     # 2. proofs
-    extra_targets = list(prop.get("extra_targets", [])) + ["corr/%s.vo" % x["corr"] for x in prop.get("extra_runs", [])]
     rc, out = make_targets(["props/%s.vo" % pid, "corr/%s.vo" % prop["corr"]] + extra_targets)
     proofs_ok = rc == 0
     if not proofs_ok:
